@@ -300,6 +300,13 @@ def write_evidence(prop, tier, batch_seed, world, cls, agg, corpus_n, known_hit,
                  "result digests) differs." % (prop, ", ".join(fals))),
         "samples": agg["samples"][:2],
         "runs_per_hour": int(agg["runs"] / max(agg["wall_s"], 1e-9) * 3600),
+        "seeds_per_hour": int(agg["runs"] / max(agg["wall_s"], 1e-9) * 3600),
+        "seeds": "run i uses sha256('%s:%s|VERIF_SEED|i')[:8]; VERIF_SEED=%d, i in [0, %d)" % (
+            world, prop, batch_seed, agg["runs"]),
+        "simulated_time_note": ("seconds of SimClock time advanced by the steps (io world)" if world == "io" else
+                                "this world has no clock on its code paths: simulated time is not applicable, "
+                                "progress is counted in steps"),
+        "abstract_state_measure": getattr(cls, "STATE_MEASURE", "tuple summarising the reference model after a step"),
         "nontrivial_runs": agg["nontrivial"],
         "corpus_replayed": corpus_n,
         "steps": st["steps"],
